@@ -116,6 +116,7 @@ OptionFails(o, kind, input, base, out) ==
       ELSE "stream is not the option-free stream with whole tokens dropped or rewritten; ")
 
 PositionFails(o, kind, input, base, out) ==
-  IF Aligned(o, kind, input, base, out, TRUE) THEN ""
+  IF HasOtherBreak(input) THEN ""     \* (whether VT, FF, NEL, LS, PS count as line breaks is left open)
+  ELSE IF Aligned(o, kind, input, base, out, TRUE) THEN ""
   ELSE "a token does not report the line/column of its first character (or end-of-input one column past the end); "
 =============================================================================
